@@ -123,10 +123,14 @@ WellFormed(f, par) == \A i \in 1..Len(f) : WellFormedAt(f, i, par)
 AllBlank(s)  == \A i \in 1..Len(s) : IsBlank(s[i])
 Printable(s) == \A i \in 1..Len(s) : (s[i] >= 32 /\ s[i] <= 126) \/ s[i] = TAB
 NoneOf(s, cs) == \A i \in 1..Len(s) : ~InStr(s[i], cs)
+\* CR LF line ends: the carriage return in front of the line feed is one more trailing blank of the line (of its comment text,
+\* when the line ends in a comment)
+TrailOk(s)     == AllBlank(s) \/ (s # <<>> /\ s[Len(s)] = 13 /\ AllBlank(SubSeq(s, 1, Len(s) - 1)))
+PrintableCr(s) == Printable(s) \/ (s # <<>> /\ s[Len(s)] = 13 /\ Printable(SubSeq(s, 1, Len(s) - 1)))
 NoOuterBlank(s) == s = <<>> \/ (~IsBlank(s[1]) /\ ~IsBlank(s[Len(s)]))
 TcOk(l, par) == \/ l.tcc = <<>> /\ l.tct = <<>>
                 \/ /\ Len(l.tcc) = 1 /\ InStr(l.tcc[1], par.comment) /\ ~par.python
-                   /\ Printable(l.tct) /\ NoneOf(l.tct, par.comment \o <<QUOTE>>)
+                   /\ PrintableCr(l.tct) /\ NoneOf(l.tct, par.comment \o <<QUOTE>>)
 SepOk(sep, D) ==
   LET cl == Class(D)  core == TrimSp(sep) IN
   CASE cl = "NONBLANK" -> Len(core) = 1 /\ InStr(core[1], D) /\ AllBlank(SelectSeq(sep, LAMBDA c : c # core[1]))
@@ -138,11 +142,11 @@ SepOk(sep, D) ==
     [] OTHER -> FALSE
 AbsOk(l, par) ==
   LET D == par.delim  C == par.comment  cl == Class(D) IN
-  CASE l.t = "blank"   -> AllBlank(l.ind)
-    [] l.t = "comment" -> AllBlank(l.ind) /\ Len(l.tcc) = 1 /\ InStr(l.tcc[1], C) /\ Printable(l.tct)
-    [] l.t = "header"  -> /\ AllBlank(l.ind) /\ AllBlank(l.tw) /\ l.key # <<>> /\ Printable(l.key) /\ NoOuterBlank(l.key)
+  CASE l.t = "blank"   -> TrailOk(l.ind)
+    [] l.t = "comment" -> AllBlank(l.ind) /\ Len(l.tcc) = 1 /\ InStr(l.tcc[1], C) /\ PrintableCr(l.tct)
+    [] l.t = "header"  -> /\ AllBlank(l.ind) /\ TrailOk(l.tw) /\ l.key # <<>> /\ Printable(l.key) /\ NoOuterBlank(l.key)
                           /\ NoneOf(l.key, C \o <<LBR, RBR, QUOTE, TAB>>)
-    [] l.t = "entry"   -> /\ cl # "NONE" /\ AllBlank(l.ind) /\ AllBlank(l.tw) /\ (par.python => l.ind = <<>>)
+    [] l.t = "entry"   -> /\ cl # "NONE" /\ AllBlank(l.ind) /\ TrailOk(l.tw) /\ (par.python => l.ind = <<>>)
                           /\ l.key # <<>> /\ Printable(l.key) /\ NoneOf(l.key, D \o C \o <<SP, TAB, QUOTE, LBR, RBR>>)
                           /\ SepOk(l.sep, D) /\ Printable(l.val) /\ TcOk(l, par)
                           /\ (~l.q => /\ NoOuterBlank(l.val) /\ (l.val # <<>> => l.val[1] # QUOTE)
@@ -150,13 +154,13 @@ AbsOk(l, par) ==
                                        /\ (par.python /\ l.val # <<>> => ~InStr(l.val[1], D))
                                        /\ (cl = "MIXED" /\ AllBlank(l.sep) /\ l.val # <<>> => ~InStr(l.val[1], D)))
                           /\ (l.q /\ par.python => NoneOf(l.val, <<QUOTE>>))
-    [] l.t = "cont"    -> /\ cl \in {"NONBLANK", "BLANK"} /\ l.ind # <<>> /\ AllBlank(l.ind) /\ AllBlank(l.tw)
+    [] l.t = "cont"    -> /\ cl \in {"NONBLANK", "BLANK"} /\ l.ind # <<>> /\ AllBlank(l.ind) /\ TrailOk(l.tw)
                           /\ l.val # <<>> /\ Printable(l.val) /\ NoOuterBlank(l.val)
                           /\ l.val[1] # LBR /\ ~InStr(l.val[1], C) /\ TcOk(l, par)
                           /\ (~par.python => NoneOf(l.val, D \o C))
                           /\ (cl = "BLANK" => l.tw = <<>> /\ l.tcc = <<>>)
                           /\ (par.python => l.tcc = <<>>)
-    [] l.t = "keyonly" -> /\ cl = "NONE" /\ AllBlank(l.ind) /\ AllBlank(l.tw) /\ l.key # <<>> /\ Printable(l.key)
+    [] l.t = "keyonly" -> /\ cl = "NONE" /\ AllBlank(l.ind) /\ TrailOk(l.tw) /\ l.key # <<>> /\ Printable(l.key)
                           /\ NoOuterBlank(l.key) /\ NoneOf(l.key, C \o <<QUOTE, LBR, RBR>>)
     [] l.t = "bad"     -> Printable(l.val) /\ NoneOf(l.val, C)
     [] OTHER -> FALSE
